@@ -145,6 +145,28 @@ async def generation_next_to_an_occupied_key():
 
 
 @scenario
+async def abandoned_child_context():
+    import gc
+
+    import anyio
+    from asphalt.core import Context
+    async with Context():
+        try:
+            async with Context() as parent:
+                async def helper():
+                    child = Context()
+                    await child.__aenter__()
+                    child.add_resource(A())
+                    # the task ends with the child still open; nothing else refers to it
+                async with anyio.create_task_group() as tg:
+                    tg.start_soon(helper)
+                gc.collect()
+                parent.get_resources(A)
+        except RuntimeError:
+            pass                          # "context stack corruption": the expected report
+
+
+@scenario
 async def lifecycle_misuse():
     from asphalt.core import Context
     root = Context()
